@@ -98,6 +98,23 @@ def dynamic_part(chk, rng, thorough):
                     if name == "CCQR.fit":
                         R.call("CCQR.fit(second fit, same cost array)", opt.fit, [B], {}, readonly=ro)
                         R.call("CCQR(sensor_costs).costs", lambda c: None, [costs], {}, readonly=False)
+            # ---- the documented pass-through of keywords to the QR routine: whatever they switch on, the model's stored basis (the
+            #      optimizer's input) stays what the basis produced, and so do the model's later reconstructions
+            if not ro:
+                for bname, mkb in (("Identity", lambda: Identity(n_basis_modes=min(3, rows))), ("SVD", lambda: SVD(n_basis_modes=2, random_state=0))):
+                    try:
+                        mdl = SSPOR(basis=mkb(), n_sensors=3)
+                        impl.quiet(mdl.fit, X.copy(), quiet=True, seed=1, overwrite_a=True)
+                        ref_b = mkb()
+                        impl.quiet(ref_b.fit, X.copy())
+                        chk.count("calls")
+                        chk.case({"entry": f"SSPOR[{bname},QR].fit(x, overwrite_a=True)", "shape": list(X.shape)}, nontrivial=True)
+                        if not np.allclose(np.array(mdl.basis_matrix_), np.array(ref_b.matrix_representation()), rtol=1e-12, atol=1e-12):
+                            chk.violation("impl", "stored-basis-modified:SSPOR.fit", f"SSPOR[{bname},QR].fit(x, overwrite_a=True): the stored basis_matrix_ is no "
+                                          "longer what the basis produced (the QR routine overwrote the optimizer's input)",
+                                          {"entry": f"SSPOR[{bname},QR].fit(x, overwrite_a=True)", "X": X.tolist()})
+                    except Exception as e:
+                        chk.count("overwrite-kw-rejected:" + type(e).__name__)
             # the constraint maps called by GQR: only the freshly computed norms may be zeroed
             for f in (NC.exact_n, NC.max_n, NC.predetermined):
                 dl = np.ones(n - 1)
